@@ -1,7 +1,11 @@
 import Bee2V.C03.LemmasF
 import Bee2V.C03.LemmasPrg
 import Bee2V.C03.LemmasHashSpec
+import Bee2V.C03.LemmasPrgSpec
 import Bee2V.C03.LemmasCtr
+import Bee2V.C03.LemmasGen
+import Bee2V.C03.LemmasOcra
+import Bee2V.C03.LemmasF32
 /-!
 # Property C03 — bash-f, bash hash, programmable automaton, brng, botp compute what the standards define
 
@@ -47,20 +51,32 @@ example :
   rw [← Spec.roundsFromV_eq, h]
 
 
+/-! ### bash_f32.c (BASH_32: interleaved 2×u32 words) — second code-shaped model, regenerated from the source
+
+The SIMD variants (SSE2, AVX2, AVX-512, NEON) are NOT modelled; they are compared with the same Lean driver in the
+correspondence run only. -/
+
+/-- **f32 = f64**: on every 192-octet block `bashF` of bash_f32.c (u32x2Inter, 24 interleaved rounds,
+u32x2Deinter) returns what `bashF` of bash_f64.c returns -/
+theorem bashF32_eq_bashF64 (b : List UInt8) (hb : b.length = 192) : F32.bashF32 b = bashF b :=
+  F32.bashF32_eq_bashF b hb
+
+/-- word level, and hence bash-f of the standard -/
+theorem bashF32_eq_spec (s : Vector UInt64 24) (x : Fin 24) :
+    (F32.deinterAll (F32.bashF0_32 (F32.interAll s)))[x].toBitVec = Spec.bashF (fun y => s[y].toBitVec) x :=
+  F32.bashF0_32_spec s x
+
+example : ∃ b : List UInt8, b.length = 192 := ⟨List.replicate 192 0, by decide⟩
+
 /-! ## bash hash and the programmable automaton (bash_hash.c, bash_prg.c)
 
 `F` is the sponge permutation; the theorems hold for every `F`, in particular for `bashF`
 (which is bash-f of the standard by `bashF0_eq_spec`). -/
 
-/- FULL STATEMENT (not proved in Lean): every automaton command (absorb, squeeze, encrypt, decrypt; §8 of
-   STB 34.101.77) equals its block-form text: split the data into `buf_len`-octet blocks, act on `S[0..|X_i|)`,
-   apply `F` after every full block.
-   PROVED: the code's buffering skeleton (early return / fill-up / full-block loop / tail, arbitrary
-   chunking) IS the octet-at-a-time sponge `foldBytes` (act on `s[pos]`, advance, apply `F` when
-   `pos = buf_len`), for every per-octet action.  For the HASH the regrouping into blocks and the padding are
-   proved as well (`bashHash_eq_standard` below).  MISSING for the automaton: the regrouping of `foldBytes`
-   into whole blocks per command; exercised by the Python automaton of the search oracle only. -/
-theorem bashPrg_eq_standard_partial (F : Bytes → Bytes) (op : OpB) (data : Bytes) (st : Sp)
+/-- the code's buffering skeleton (early return / fill-up / full-block loop / tail) IS the octet-at-a-time
+sponge `foldBytes` (act on `s[pos]`, advance, apply `F` when `pos = buf_len`), for every per-octet action,
+data length and state with `pos < buf_len` (the block forms of the standard are derived from this below) -/
+theorem bashSponge_is_octet_sponge (F : Bytes → Bytes) (op : OpB) (data : Bytes) (st : Sp)
     (h : st.pos < st.bufLen) : stepGen F op data st = foldBytes F op data st :=
   stepGen_eq_fold F op data st h
 
@@ -133,6 +149,55 @@ theorem bashPrg_decr_inverts_encr (F : Bytes → Bytes) (l d : Nat) (ann key : B
 example : (∀ c ∈ [Cmd.absorb [1, 2], Cmd.restart [0, 0, 0, 0] [], Cmd.ratchet, Cmd.squeeze 70], c.ok) := by
   intro c hc; simp at hc; rcases hc with h | h | h | h <;> subst h <;> simp [Cmd.ok]
 
+/-! ### the automaton = the block-form text of STB 34.101.77 §8 (`Spec` in `SpecPrg.lean`)
+
+`toSpec` reads `(l, d, S, r = buf_len, pos)` off the code's state.  `F` = any map of 192 octets to 192 octets. -/
+
+/-- command codes of the source = `⟨t ‖ 01⟩` of the command types NULL, KEY, DATA, TEXT, OUT -/
+theorem bashPrg_codes_eq_standard : codeNull = Spec.CmdType.null.octet ∧ codeKey = Spec.CmdType.key.octet ∧
+    codeData = Spec.CmdType.data.octet ∧ codeText = Spec.CmdType.text.octet ∧
+    codeTextDecr = Spec.CmdType.text.octet ∧ codeOut = Spec.CmdType.out.octet ∧
+    codeRatchet = Spec.CmdType.null.octet := codes_eq
+
+/-- `bashPrgStart` = `start[l,d](A,K)`: header octet, `A ‖ K`, zeros, `⟨l/4+d⟩_64`, `pos`, and the `buf_len`
+table (keyed `(1536−l−dl/2)/8`, keyless `(1536−2dl)/8`) -/
+theorem bashPrg_start_eq_standard (l d : Nat) (A K : Bytes) (hl : l = 128 ∨ l = 192 ∨ l = 256)
+    (hd : d = 1 ∨ d = 2) (ha : A.length ≤ 60) (hk : K.length ≤ 60) :
+    toSpec (prgStart l d A K) = Spec.start l d A K :=
+  prgStart_spec l d A K hl hd ha hk
+
+/-- every command of the code = the command of the standard, state AND output, from every reachable state:
+restart (commit KEY/NULL, switch to the keyed rate, xor the header), absorb, squeeze, encrypt, decrypt (commit +
+block loop `Split(X, r)`), ratchet -/
+theorem bashPrg_commands_eq_standard (F : Bytes → Bytes) (hF : ∀ s : Bytes, s.length = 192 → (F s).length = 192)
+    (st : PrgSt) (h : st.WF2) :
+    (∀ A K : Bytes, A.length ≤ 60 → K.length ≤ 60 →
+      toSpec (prgRestart F A K st) = Spec.restart F A K (toSpec st)) ∧
+    (∀ X, toSpec (prgAbsorb F X st) = Spec.absorb F X (toSpec st)) ∧
+    (∀ n, (toSpec (prgSqueeze F (zeros n) st).1, (prgSqueeze F (zeros n) st).2) = Spec.squeeze F n (toSpec st)) ∧
+    (∀ X, (toSpec (prgEncr F X st).1, (prgEncr F X st).2) = Spec.encrypt F X (toSpec st)) ∧
+    (∀ Y, (toSpec (prgDecr F Y st).1, (prgDecr F Y st).2) = Spec.decrypt F Y (toSpec st)) ∧
+    toSpec (prgRatchet F st) = Spec.ratchet F (toSpec st) :=
+  ⟨fun A K ha hk => prgRestart_spec F hF A K st h ha hk, fun X => (prgAbsorb_spec F hF X st h).1,
+    fun n => (prgSqueeze_spec F hF n st h).1, fun X => (prgEncr_spec F hF X st h).1,
+    fun Y => (prgDecr_spec F hF Y st h).1, prgRatchet_spec F hF st h⟩
+
+/-- **every command history**: the state of the code after Start and any sequence of (one-shot) commands is the
+state of the standard's automaton after the same commands; the invariant (incl. `|S| = 192`) holds, so
+`bashPrg_commands_eq_standard` applies to the next command.  (A command fed by several Step calls equals the
+one-shot command by `bashPrg_steps_chunk_independent`.) -/
+theorem bashPrg_history_eq_standard (F : Bytes → Bytes) (hF : ∀ s : Bytes, s.length = 192 → (F s).length = 192)
+    (l d : Nat) (A K : Bytes) (hl : l = 128 ∨ l = 192 ∨ l = 256) (hd : d = 1 ∨ d = 2)
+    (ha : A.length ≤ 60) (hk : K.length ≤ 60) (h : List Cmd) (hok : ∀ c ∈ h, c.ok ∧ c.oneShot) :
+    toSpec (runAll F h (prgStart l d A K)) = h.foldl (fun s c => specRun F c s) (Spec.start l d A K) ∧
+      (runAll F h (prgStart l d A K)).WF2 := by
+  have := runAll_spec F hF h hok _ (prgStart_WF2 F hF l d A K hl hd ha hk)
+  rw [prgStart_spec l d A K hl hd ha hk] at this
+  exact this
+
+example : Spec.rate 256 2 false = 64 ∧ Spec.rate 128 1 true = 168 := by decide
+example : (Spec.squeeze id 3 (Spec.start 128 1 [] [])).2.length = 3 := by decide
+
 /-! ## brng (brng.c) -/
 
 /-- **`brngBlockInc`**: for EVERY 256-bit `s` (including `2^256 − 1` and a carry across every word) the word
@@ -146,12 +211,9 @@ theorem brngBlockInc_spec (s rest : Bytes) (hs : s.length = 32) :
 example : blockInc 8 (List.replicate 32 0xFF ++ [7, 7]) = List.replicate 32 0 ++ [7, 7] := by
   rw [(brngBlockInc_spec (List.replicate 32 0xFF) [7, 7] (by decide)).1]; decide +kernel
 
-/- FULL STATEMENT (not proved in Lean): the octets returned by ANY sequence of `brngCTRStepR` requests are the
-   prefix-consistent concatenation of `Y_1, Y_2, …` of STB 34.101.47 §6.2 (with the header's buffering rule).
-   PROVED: every generated block — `ctrNext`, which is what `brngCTRStepR` executes per block, complete or
-   partial — is one step of the standard for all `key, s, r, X`.  MISSING: the `reserved` bookkeeping and the
-   request loop (`ctrStepR`/`ctrGen`/`ctrFull`), covered by the correspondence run and the Python oracle only. -/
-theorem brngCTR_eq_standard_partial (wb : Nat) (hwb : wb = 8 ∨ wb = 4) (key s r : Bytes) (hs : s.length = 32)
+/-- every generated block — `ctrNext`, what `brngCTRStepR` executes per block, complete or partial — is one
+step of the standard for all `key, s, r, X`, for 64- and 32-bit words -/
+theorem brngCTR_block_spec (wb : Nat) (hwb : wb = 8 ∨ wb = 4) (key s r : Bytes) (hs : s.length = 32)
     (hr : r.length = 32) (xs : List Bytes) (st : CtrSt) (hmem : st.mem = s ++ r)
     (hkey : st.keySt = Belt.hashStepH key Belt.hashStart) :
     let Y := Belt.hash (key ++ s ++ xs.flatten ++ r)
@@ -160,6 +222,38 @@ theorem brngCTR_eq_standard_partial (wb : Nat) (hwb : wb = 8 ∨ wb = 4) (key s 
   rcases hwb with h | h <;> subst h
   · exact ctrNext_spec 8 (by decide) (by decide) key s r hs hr xs st hmem hkey
   · exact ctrNext_spec 4 (by decide) (by decide) key s r hs hr xs st hmem hkey
+
+/-- **brng CTR = STB 34.101.47 §6.2 + the buffering rule of brng.h, for ANY sequence of requests**:
+after `brngCTRStart(key, iv)`, the octets returned by the successive `brngCTRStepR` calls (buffers of any lengths,
+any additional input) are those of `Spec.ctrServeAll` (unread tail of the last block first, then
+⌈rest/32⌉ steps `Y ← h(K‖s‖X‖r)`, `s ← s+1 mod 2^256`, `r ← r ⊕ Y`), and `brngCTRStepG` returns the standard's `s`. -/
+theorem brngCTR_eq_standard (wb : Nat) (hwb : wb = 8 ∨ wb = 4) (key iv : Bytes) (hiv : iv.length = 32)
+    (bufs : List Bytes) :
+    (ctrRun wb bufs (ctrStart key iv)).2 = (Spec.ctrServeAll key (Spec.ctrInit iv) [] bufs).2.2.1 ∧
+    ctrStepG (ctrRun wb bufs (ctrStart key iv)).1 = (Spec.ctrServeAll key (Spec.ctrInit iv) [] bufs).1.s := by
+  obtain ⟨hi, hg, ht⟩ := ctrStart_inv key iv hiv
+  obtain ⟨h1, h2⟩ := ctrRun_spec wb hwb key bufs _ hi
+  rw [hg, ht] at h1 h2
+  exact ⟨h1, by rw [← h2]; rfl⟩
+
+/-- prefix consistency of the buffering rule: everything returned so far, followed by the unread tail, is
+exactly `Y_1 ‖ Y_2 ‖ …` generated so far -/
+theorem brngCTR_prefix_consistent (key : Bytes) (bufs : List Bytes) (g : Spec.G) :
+    (Spec.ctrServeAll key g [] bufs).2.2.1.flatten ++ (Spec.ctrServeAll key g [] bufs).2.1
+      = (Spec.ctrServeAll key g [] bufs).2.2.2 := by
+  have := ctrServeAll_prefix key bufs g []
+  simpa using this
+
+/-- **brng HMAC = STB 34.101.47 §6.3 + the buffering rule, for ANY sequence of requests** (`r ← hmac(K,S)`;
+per block `Y ← hmac(K, r‖S)`, `r ← hmac(K, r)`); any key length, any IV length (the model keeps the IV octets for
+`iv_len ≤ 64` and `> 64` alike — the C keeps a pointer to the caller's octets in the second case) -/
+theorem brngHMAC_eq_standard (key iv : Bytes) (ns : List Nat) :
+    (hmacGenRun ns (hmacGenStart key iv)).2
+      = (Spec.hmacServeAll key iv (Spec.hmacInit key iv) [] ns).2.2.1 := by
+  obtain ⟨hi, h1, h2, h3⟩ := hmacGenStart_inv key iv
+  have := hmacGenRun_spec key ns _ hi
+  rw [h1, h2, h3] at this
+  exact this
 
 example : (ctrStart (zeros 32) (zeros 32)).mem = zeros 32 ++ List.replicate 32 0xFF := by decide
 
@@ -183,5 +277,63 @@ theorem botpDT_spec (digit : Nat) (hd : digit ≤ 9) (mac : Bytes) :
   rw [botpDT, decVal_decFromU32, Nat.mod_eq_of_lt hlt]
 
 example : botpDT 6 (List.replicate 19 0x12 ++ [0x0A]) = [0x31, 0x37, 0x34, 0x31, 0x36, 0x32] := by decide
+
+
+/-! ### HOTP / TOTP / OCRA = the standard (arithmetic form: counters and times are numbers; `Spec` in
+`SpecBotp.lean`) -/
+
+/-- dynamic truncation + formatting of the code = `Spec.otp` (offset `mac[last] mod 16`, 31-bit big-endian number,
+`mod 10^digit`, `digit` decimal characters) -/
+theorem botpDT_eq_standard (digit : Nat) (hd : digit ≤ 9) (mac : Bytes) : botpDT digit mac = Spec.otp digit mac :=
+  botpDT_eq digit (by omega) mac
+
+/-- **HOTP**: `StepR` returns `HOTP(K, C)` and moves the counter to `C+1 mod 2^64`; `StepV` succeeds iff the
+password is `HOTP(K, C)` and moves the counter on success only; the same over ANY history of StepR/StepV calls -/
+theorem botpHOTP_eq_standard (key : Bytes) (digit : Nat) (hd : digit ≤ 9) (C : Nat) (cs : List (Option Bytes)) :
+    let st := hotpStepS (Spec.be8 C) (hotpStart digit key)
+    (hotpRun cs st).2 = (Spec.hotpRun key digit C cs).2 ∧
+      (hotpRun cs st).1.ctr = Spec.be8 (Spec.hotpRun key digit C cs).1 :=
+  hotpRun_spec key cs C _ (by show digit < 10; omega) rfl rfl
+
+/-- **TOTP**: password and verification for the rounded time `T` -/
+theorem botpTOTP_eq_standard (key otp : Bytes) (digit T : Nat) (hd : digit ≤ 9) :
+    totpStepR digit (Belt.hmacStart key) T = Spec.totp key digit T ∧
+    totpStepV otp digit (Belt.hmacStart key) T = decide (Spec.totp key digit T = otp) :=
+  ⟨totpStepR_spec key digit T (by omega), totpStepV_spec key otp digit T (by omega)⟩
+
+/-- **the OCRA suite parser accepts exactly the grammar** `OCRA-1:HOTP-HBELT-<4..9>:[C-]Q<A|N|H><04..64>`
+`[-P<HBELT|SHA1|SHA256|SHA512>][-S<000..512>][-T<1..59><S|M> | -T<1..48>H]`: every suite of the grammar is accepted
+(completeness), every accepted NUL-free string is a suite of the grammar (soundness), and in both cases the state
+holds the parameters the suite stands for -/
+theorem botpOCRAStart_eq_grammar (key : Bytes) :
+    (∀ su : Spec.Suite, su.valid → ocraStart su.str key = some (stOf su key)) ∧
+    (∀ (s : Bytes) (st : OcraSt), ocraStart s key = some st → (0 : UInt8) ∉ s →
+      ∃ su : Spec.Suite, su.valid ∧ s = su.str ∧ st = stOf su key) :=
+  ⟨fun su hv => ocraStart_complete su hv key, fun s st h h0 => ocraStart_sound s key st h h0⟩
+
+/-- **OCRA**: after Start (suite of the grammar) and StepS, `StepR` returns
+`DT(hmac(K, suite‖00‖[C]‖Q‖0…0‖[P]‖[S]‖[T]))` and moves the counter (if any) to `C+1`; `StepV` succeeds iff the
+password is that value and moves the counter on success only -/
+theorem botpOCRA_eq_standard (su : Spec.Suite) (hv : su.valid) (key : Bytes) (C : Nat) (P S Q otp : Bytes) (T : Nat)
+    (hP : P.length = su.params.pLen) (hS : S.length = su.params.sLen) :
+    let st := ocraStepS (Spec.be8 C) P S (stOf su key)
+    let C' := if su.ctr then C else 0
+    let v := Spec.ocra key su.str su.params C' Q (if su.params.pLen ≠ 0 then P else [])
+      (if su.params.sLen ≠ 0 then S else []) T
+    ocraStart su.str key = some (stOf su key) ∧
+    ocraStepR Q T st = ({ st with ctr := if su.params.ctr then Spec.be8 (C' + 1) else st.ctr }, v) ∧
+    ocraStepV otp Q T st =
+      if otp = v then ({ st with ctr := if su.params.ctr then Spec.be8 (C' + 1) else st.ctr }, true)
+      else (st, false) := by
+  intro st C' v
+  have hof := stepS_Of su key C P S hP hS
+  have hd : su.params.digit < 10 := by have := hv.2.1; show su.digit < 10; omega
+  exact ⟨ocraStart_complete su hv key, ocraStepR_spec key su.str su.params C' _ _ Q T st hof hd,
+    ocraStepV_spec key su.str su.params C' _ _ Q otp T st hof hd⟩
+
+example : (⟨6, true, .N, 8, some .sha1, some 64, some (30, .S)⟩ : Spec.Suite).valid := by
+  refine ⟨by decide, by decide, by decide, by decide, ?_, ?_⟩
+  · intro n h; injection h with h; omega
+  · intro n u h; injection h with h; injection h with h1 h2; subst h1; subst h2; decide
 
 end Bee2V.C03
